@@ -10,7 +10,7 @@ FUNCS_NAMED = [("fn", "1"), ("fn", "10"), ("fn1", "0")]   # fn#10 has no local v
 FUNCS_DEFAULT = [("dfn", "1"), ("dfn1", "0"), ("dg", "2")]
 NARGS = 3
 VALKEYS = ["s0", "s1", "num", "none", "k3", "k6", "lst", "dct", "df", "arr", "k3b", "true", "flt", "part",
-           "part2", "arr6", "df6", "exc", "exc", "part3", "partm", "partd"]
+           "part2", "arr6", "df6", "exc", "exc", "part3", "partm", "partd", "excu"]
 OVERRIDES = [None, None, None, "ovr/shared", "ovr/other", "ovr/k#1"]  # (a key may contain the character that separates key and version)
 META_KEYS = ["log", "k2", ""]  # (the empty key is a key like any other)
 
@@ -39,15 +39,17 @@ def values():
         "partd": lambda: _on_disk({"a": 1, "z": "other", "s": "small-0", "k": "x" * 3000, "own": "staged only"}),
         # a recorded failure (stored like a value: calls that failed alike share the stored object)
         "exc": _failure(),
+        # ... whose message is not ASCII
+        "excu": _failure("entr\u00e9e non valide \u2014 \u65e5\u672c"),
         # one value per call, never produced by any other call
         **{"u%d%d" % (f, a): "unique result of call %d/%d" % (f, a) for f in range(3) for a in range(NARGS)},
     }
 
 
-def _failure():
+def _failure(text="bad input"):
     from twosigma.memento.exception import MementoException
 
-    return MementoException("python::builtins:ValueError", "bad input", "Traceback (most recent call last):\n  ...\nValueError: bad input\n")
+    return MementoException("python::builtins:ValueError", text, "Traceback (most recent call last):\n  ...\nValueError: %s\n" % text)
 
 
 def _partition(d):
@@ -187,7 +189,7 @@ def gen_history(rng, length, readonly_safe=False, valkeys=None, funcs=3):
     if not readonly_safe and rng.random() < 0.25:
         f, a = rng.randrange(funcs), rng.randrange(NARGS)
         f2, a2 = rng.choice([(x, y) for x in range(funcs) for y in range(NARGS) if (x, y) != (f, a)])
-        v1, v2 = rng.sample([v for v in vk if not v.startswith("part") and v != "exc"], 2)
+        v1, v2 = rng.sample([v for v in vk if not v.startswith("part") and not v.startswith("exc")], 2)
         block = [["memoize", f, a, v1, "ovr/shared"], ["forget_all"] if rng.random() < 0.6 else ["forget_call", f, a],
                  ["memoize", f2, a2, v2, "ovr/shared"], ["readheld", f, a], ["read", f2, a2]]
         at = rng.randrange(len(ops) + 1)
